@@ -668,3 +668,4 @@ seed('c05-discrete-scratch-copied-unwritten', 'C05', [(DMV, "    if (nd > 1)\n  
 seed('c14-dubins-reverse-loop-skips-first-segment', 'C14', [(DUB, "        for (unsigned int i = 0; i < 3 && seg > 0; ++i)\n        {\n            v = std::min(seg, path.length_[2 - i]);\n            phi = s->getYaw();\n            seg -= v;\n            switch (path.type_->at(2 - i))", "        for (unsigned int i = 2; i > 0 && seg > 0; --i)\n        {\n            v = std::min(seg, path.length_[i]);\n            phi = s->getYaw();\n            seg -= v;\n            switch (path.type_->at(i))")], 'R14d')
 seed('c14-n-dubins-reverse-loop-counts-down', 'C14', [(DUB, "        for (unsigned int i = 0; i < 3 && seg > 0; ++i)\n        {\n            v = std::min(seg, path.length_[2 - i]);\n            phi = s->getYaw();\n            seg -= v;\n            switch (path.type_->at(2 - i))", "        for (unsigned int i = 3; i > 0 && seg > 0; --i)\n        {\n            v = std::min(seg, path.length_[i - 1]);\n            phi = s->getYaw();\n            seg -= v;\n            switch (path.type_->at(i - 1))")], None)
 seed('c04-n-aitstar-registry-before-snapshot', 'C04', [(AITC, "                    // Remember the incumbent cost.\n                    solutionCost_ = goal->getCostToComeFromStart();", "                    // Remember the incumbent cost.\n                    const bool hadExact = pdef_->hasExactSolution();\n                    solutionCost_ = goal->getCostToComeFromStart();\n                    if (!hadExact)\n                        OMPL_DEBUG(\"first exact solution\");", 0)], None)
+seed('c03-lbtrrt-preserves-approximate-node', 'C03', [(LBTC, "        if (!approximate)\n            lastGoalMotion_ = solution;\n", "        lastGoalMotion_ = solution;\n")], 'R03t')
